@@ -124,8 +124,132 @@ Section AL.
 End AL.
 
 
+(** * Sector-root rows: the store's update of a v2 contract's rows *)
+Lemma somes_map_Some : forall l, somes (map Some l) = l.
+Proof. induction l as [|x t IH]; cbn; [reflexivity | f_equal; exact IH]. Qed.
+
+Lemma upsert_replace : forall pre r o t,
+  upsert_row (List.length pre) r (map Some (pre ++ o :: t)) = map Some (pre ++ r :: t).
+Proof. induction pre as [|x pre IH]; intros r o t; cbn; [reflexivity | f_equal; apply IH]. Qed.
+
+Lemma upsert_append : forall pre r,
+  upsert_row (List.length pre) r (map Some pre) = map Some (pre ++ [r]).
+Proof. induction pre as [|x pre IH]; intros r; cbn; [reflexivity | f_equal; apply IH]. Qed.
+
+(* on rows that are exactly the old list, the loop leaves exactly the new roots followed by
+   the old ones past the new end *)
+Lemma v2_upserts_dense : forall new old pre,
+  v2_upserts (List.length pre) old new (map Some (pre ++ old)) =
+  map Some (pre ++ new ++ skipn (List.length new) old).
+Proof.
+  induction new as [|r new IH]; intros old pre; cbn [v2_upserts]; [reflexivity|].
+  destruct old as [|o old]; cbn [tl List.length skipn app].
+  - rewrite app_nil_r, upsert_append.
+    specialize (IH [] (pre ++ [r])). rewrite app_nil_r, app_length, Nat.add_comm in IH. cbn [List.length plus] in IH.
+    rewrite IH. rewrite skipn_nil. rewrite <- app_assoc. reflexivity.
+  - assert ((if (o =? r)%N then map Some (pre ++ o :: old) else upsert_row (List.length pre) r (map Some (pre ++ o :: old)))
+            = map Some ((pre ++ [r]) ++ old)) as ->.
+    { rewrite <- app_assoc. cbn [app]. destruct (o =? r)%N eqn:E; [apply N.eqb_eq in E; subst o; reflexivity | apply upsert_replace]. }
+    specialize (IH old (pre ++ [r])). rewrite app_length, Nat.add_comm in IH. cbn [List.length plus] in IH.
+    rewrite IH. rewrite <- app_assoc. reflexivity.
+Qed.
+
+(* the store's rows after ReviseV2Contract are the new list when they were the cached one:
+   nothing of the old tail survives a shrink (to k > 0 roots or to none), nothing is lost
+   when the list grows or is rewritten in place *)
+Lemma v2_rows_update_dense : forall old new, v2_rows_update (map Some old) old new = map Some new.
+Proof.
+  intros old new. unfold v2_rows_update.
+  pose proof (v2_upserts_dense new old []) as H. cbn [List.length app] in H. rewrite H.
+  destruct (List.length new <? List.length old)%nat eqn:E.
+  - rewrite firstn_map. rewrite firstn_app, Nat.sub_diag, firstn_all. cbn. rewrite app_nil_r. reflexivity.
+  - apply Nat.ltb_ge in E. rewrite skipn_all2 by exact E. rewrite app_nil_r. reflexivity.
+Qed.
+
+Lemma v2_store_roots : forall old new, somes (v2_rows_update (map Some old) old new) = new.
+Proof. intros. rewrite v2_rows_update_dense. apply somes_map_Some. Qed.
+
+(** * Volume files and the available flags *)
+Lemma mark_vols_mark : forall g g' vs, mark_vols g (mark_vols g' vs) = mark_vols g vs.
+Proof.
+  intros g g' vs. unfold mark_vols. rewrite map_map. apply map_ext. intros [id [[r t] a]]. reflexivity.
+Qed.
+
+Lemma files_ok_mark : forall g vs, files_ok g (mark_vols g vs) = true.
+Proof.
+  intros g vs. unfold files_ok, mark_vols. rewrite forallb_forall. intros v Hv.
+  apply in_map_iff in Hv. destruct Hv as [[id [[r t] a]] [<- _]]. cbn. apply Bool.eqb_reflx.
+Qed.
+
+Lemma files_ok_fix : forall g vs, files_ok g vs = true -> mark_vols g vs = vs.
+Proof.
+  intros g vs H. unfold files_ok in H. rewrite forallb_forall in H. unfold mark_vols.
+  rewrite <- (map_id vs) at 2. apply map_ext_in. intros [id [[r t] a]] Hv.
+  specialize (H _ Hv). cbn in *. apply Bool.eqb_prop in H. subst a. reflexivity.
+Qed.
+
+Lemma mark_vols_keys : forall g vs, map fst (mark_vols g vs) = map fst vs.
+Proof. intros g vs. unfold mark_vols. rewrite map_map. reflexivity. Qed.
+
+Lemma file_gone_unhide : forall g id x, file_gone (unhide id g) x = file_gone g x && negb (x =? id)%N.
+Proof.
+  intros g id x. unfold file_gone, unhide. induction g as [|y g IH]; cbn; [reflexivity|].
+  destruct (y =? id)%N eqn:E; cbn.
+  - rewrite IH. apply N.eqb_eq in E. subst y. destruct (x =? id)%N eqn:E2; cbn; [rewrite Bool.andb_false_r; reflexivity | reflexivity].
+  - rewrite IH. destruct (x =? y)%N eqn:E2; cbn; [|reflexivity].
+    apply N.eqb_eq in E2. subst y. rewrite E. reflexivity.
+Qed.
+
+Lemma file_gone_hide : forall g id x, file_gone (hide id g) x = (x =? id)%N || file_gone g x.
+Proof.
+  intros g id x. unfold hide. change (file_gone (id :: unhide id g) x) with ((x =? id)%N || file_gone (unhide id g) x).
+  rewrite file_gone_unhide. destruct (x =? id)%N; cbn; [reflexivity | apply Bool.andb_true_r].
+Qed.
+
+(* files of volumes the store does not know do not matter *)
+Lemma files_ok_ext : forall g g' vs,
+  (forall v, In v vs -> file_gone g' (fst v) = file_gone g (fst v)) -> files_ok g' vs = files_ok g vs.
+Proof.
+  intros g g' vs H. unfold files_ok. induction vs as [|v vs IH]; cbn; [reflexivity|].
+  rewrite H by (left; reflexivity). f_equal. apply IH. intros x Hx. apply H. right. exact Hx.
+Qed.
+
+Lemma files_ok_app : forall g vs vs', files_ok g (vs ++ vs') = files_ok g vs && files_ok g vs'.
+Proof. intros. unfold files_ok. apply forallb_app. Qed.
+
+Lemma files_ok_aset : forall g vs id r t r' t' a,
+  alookup id vs = Some (r, t, a) -> files_ok g vs = true -> files_ok g (aset id (r', t', a) vs) = true.
+Proof.
+  intros g vs id r t r' t' a. unfold files_ok. induction vs as [|[k [[r0 t0] a0]] vs IH]; cbn; [discriminate|].
+  destruct (id =? k)%N eqn:E; cbn.
+  - intros H. inversion H; subst. apply N.eqb_eq in E. subst k. auto.
+  - intros H H2. apply Bool.andb_true_iff in H2. destruct H2 as [H2 H3]. rewrite H2. cbn. auto.
+Qed.
+
+Lemma vols_mem_aset : forall (vs : list (N * (bool * N * bool))) id r t r' t' a,
+  alookup id vs = Some (r, t, a) ->
+  map (fun v => (fst v, snd (snd v))) (aset id (r', t', a) vs) = map (fun v => (fst v, snd (snd v))) vs.
+Proof.
+  intros vs id r t r' t' a. induction vs as [|[k [[r0 t0] a0]] vs IH]; cbn; [discriminate|].
+  destruct (id =? k)%N eqn:E; cbn.
+  - intros H. inversion H; subst. apply N.eqb_eq in E. subst k. reflexivity.
+  - intros H. f_equal. auto.
+Qed.
+
 Lemma restart_idem : forall s, restart (restart s) = restart s.
-Proof. reflexivity. Qed.
+Proof.
+  intros s. unfold restart.
+  cbn [db gone set_db_vols d_vols d_cs d_roots d_hooks d_settings d_bal d_tip].
+  rewrite mark_vols_mark. reflexivity.
+Qed.
+
+(* with the same files opening, a start writes nothing *)
+Lemma restart_db : forall s, files_as_loaded s -> db (restart s) = db s.
+Proof.
+  intros [[cs r h st b v t] m bs g] H. unfold files_as_loaded in H. cbn in H.
+  unfold restart. cbn [db gone set_db_vols d_vols d_cs d_roots d_hooks d_settings d_bal d_tip].
+  rewrite (files_ok_fix _ _ H). reflexivity.
+Qed.
 
 (** * Sector roots *)
 Lemma roots_of_aset : forall l c r c', roots_of (aset c r l) c' = if (c' =? c)%N then r else roots_of l c'.
@@ -407,22 +531,28 @@ Qed.
 Lemma coh_restart : forall s,
   NoDup (map fst (d_roots (db s))) -> NoDup (map fst (d_hooks (db s))) -> coh (restart s).
 Proof.
-  intros s N1 N2. unfold coh, restart, load. cbn.
-  pose proof (build_tree_inv _ N2) as T. repeat split; auto; apply T.
+  intros s N1 N2. split.
+  - unfold coh0, restart, load. cbn.
+    pose proof (build_tree_inv _ N2) as T. repeat split; auto; apply T.
+  - unfold files_as_loaded, restart. cbn. apply files_ok_mark.
 Qed.
 
-Lemma coh_init : coh init.
-Proof. change init with (restart init). apply coh_restart; cbn; constructor. Qed.
-
-Lemma step_coh : forall s o, coh s -> benign s o = true -> coh (fst (step s o)).
+Lemma step_coh0 : forall s o, coh0 s -> benign0 s o = true -> coh0 (fst (step s o)).
 Proof.
-  intros [d m bs] o (Hr & Nd & Nm & Hh & Nh & Ht & Hs & (Hc & Hf) & Hv & Htip) Hb.
-  cbn [db mem budgets] in *.
-  destruct o; cbn [step db mem budgets].
-  - (* FormC *) unfold coh. cbn. repeat split; auto; apply Ht.
-  - (* Commit *) unfold coh. cbn. repeat split; auto; try apply aset_nodup; auto; try apply Ht.
+  intros [d m bs g] o (Hr & Nd & Nm & Hh & Nh & Ht & Hs & (Hc & Hf) & Hv & Htip) Hb.
+  cbn [db mem budgets gone] in *.
+  destruct o; cbn [step db mem budgets gone].
+  - (* FormC *) unfold coh0. cbn. repeat split; auto; apply Ht.
+  - (* Commit *)
+    assert ((if match alookup c (d_cs d) with Some (b, _) => b | None => false end
+             then somes (v2_rows_update (map Some (roots_of (d_roots d) c)) (roots_of (m_roots m) c) roots)
+             else roots) = roots) as Hst.
+    { destruct (match alookup c (d_cs d) with Some (b, _) => b | None => false end); [|reflexivity].
+      rewrite Hr. apply v2_store_roots. }
+    cbn zeta. rewrite Hst.
+    unfold coh0. cbn. repeat split; auto; try apply aset_nodup; auto; try apply Ht.
     intros c'. rewrite !roots_of_aset. destruct (c' =? c)%N; auto.
-  - (* RenewC *) unfold coh. cbn [fst mk db mem budgets set_db_roots set_db_cs set_m_roots d_roots m_roots d_cs d_hooks m_hooks m_tree m_settings d_settings m_bal m_vols d_vols m_tip d_tip].
+  - (* RenewC *) unfold coh0. cbn [fst mk db mem budgets set_db_roots set_db_cs set_m_roots d_roots m_roots d_cs d_hooks m_hooks m_tree m_settings d_settings m_bal m_vols d_vols m_tip d_tip].
     assert (NoDup (map fst (aset new (roots_of (d_roots d) old) (d_roots d)))) as Nd1 by (apply aset_nodup; exact Nd).
     assert (NoDup (map fst (aset new (roots_of (m_roots m) old) (m_roots m)))) as Nm1 by (apply aset_nodup; exact Nm).
     repeat split; auto; try apply Ht.
@@ -435,12 +565,12 @@ Proof.
         destruct (c' =? old)%N; destruct (c' =? new)%N; auto.
     + apply aremove_nodup. exact Nd1.
     + destruct v2; [exact Nm1 | apply aremove_nodup; exact Nm1].
-  - (* Mine *) unfold coh. cbn. cbn in Hb. repeat split; auto; try apply Ht.
+  - (* Mine *) unfold coh0. cbn. cbn in Hb. repeat split; auto; try apply Ht.
     + intros c'. rewrite expire_benign; auto.
     + apply expire_nodup. exact Nd.
   - (* RegisterHook *)
     pose proof (next_id_fresh (d_hooks d)) as Hfresh.
-    unfold coh. cbn. rewrite Hh in *.
+    unfold coh0. cbn. rewrite Hh in *.
     assert (tree_inv (add_scopes (m_tree m) (next_id (d_hooks d)) scopes)
                      (aset (next_id (d_hooks d)) {| h_url := url; h_scopes := scopes |} (d_hooks d))) as T.
     { eapply tree_inv_upd; [exact Ht | apply add_scopes_nodup; apply Ht |].
@@ -454,66 +584,116 @@ Proof.
     rewrite map_app. cbn. apply NoDup_snoc; auto.
   - (* UpdateHook *)
     destruct (alookup id (d_hooks d)) as [h0|] eqn:E.
-    + rewrite Hh. rewrite E. unfold coh. cbn. rewrite Hh in *.
+    + rewrite Hh. rewrite E. unfold coh0. cbn. rewrite Hh in *.
       assert (tree_inv (add_scopes (remove_scopes (m_tree m) id) id scopes) (aset id {| h_url := url; h_scopes := scopes |} (d_hooks d))) as T.
       { eapply tree_inv_upd; [exact Ht | apply add_scopes_nodup; apply remove_scopes_nodup; apply Ht |].
         intros x. rewrite add_scopes_in, remove_scopes_in. cbn. tauto. }
       repeat split; auto; try apply aset_nodup; auto; apply T.
-    + unfold coh. cbn. repeat split; auto; apply Ht.
+    + unfold coh0. cbn. repeat split; auto; apply Ht.
   - (* RemoveHook *)
-    unfold coh. cbn. rewrite Hh in *.
+    unfold coh0. cbn. rewrite Hh in *.
     pose proof (tree_inv_remove _ _ id Nh Ht) as T.
     repeat split; auto; try apply aremove_nodup; auto; apply T.
-  - (* Broadcast *) unfold coh. cbn. repeat split; auto; apply Ht.
-  - (* SetSettings *) unfold coh. cbn. repeat split; auto; apply Ht.
+  - (* Broadcast *) unfold coh0. cbn. repeat split; auto; apply Ht.
+  - (* SetSettings *) unfold coh0. cbn. repeat split; auto; apply Ht.
   - (* Credit *)
-    unfold coh. cbn.
+    unfold coh0. cbn.
     destruct (alookup a (m_bal m)) as [[b0 n0]|] eqn:E; cbn; repeat split; auto; try apply Ht.
-    + pose proof (open_count_aset (m_bal m) a (mem_balance {| db := d; mem := m; budgets := bs |} a + amt)%N n0) as Hc'.
+    + pose proof (open_count_aset (m_bal m) a (mem_balance {| db := d; mem := m; budgets := bs; gone := g |} a + amt)%N n0) as Hc'.
       rewrite E in Hc'. unfold open_count in *. lia.
     + apply forall_aset; [exact Hf|]. apply (forall_alookup _ _ _ _ Hf E).
   - (* OpenBudget *)
     destruct (alookup b bs) as [x|] eqn:Eb.
-    { unfold coh. cbn. repeat split; auto; apply Ht. }
+    { unfold coh0. cbn. repeat split; auto; apply Ht. }
     destruct (alookup a (m_bal m)) as [[b0 n0]|] eqn:E.
-    + destruct (b0 <? amt)%N; unfold coh; cbn; repeat split; auto; try apply Ht.
+    + destruct (b0 <? amt)%N; unfold coh0; cbn; repeat split; auto; try apply Ht.
       * rewrite length_aset_none by exact Eb.
         pose proof (open_count_aset (m_bal m) a (b0 - amt)%N (n0 + 1)%N) as Hc'. rewrite E in Hc'. unfold open_count in *. lia.
       * apply forall_aset; [exact Hf | cbn; lia].
-    + destruct (bal_of (d_bal d) a <? amt)%N; unfold coh; cbn; repeat split; auto; try apply Ht.
+    + destruct (bal_of (d_bal d) a <? amt)%N; unfold coh0; cbn; repeat split; auto; try apply Ht.
       * rewrite length_aset_none by exact Eb.
         pose proof (open_count_aset (m_bal m) a (bal_of (d_bal d) a - amt)%N 1%N) as Hc'. rewrite E in Hc'. unfold open_count in *. lia.
       * apply forall_aset; [exact Hf | cbn; lia].
   - (* CommitBudget *)
     destruct (alookup b bs) as [[a mx]|] eqn:Eb.
-    2:{ unfold coh. cbn. repeat split; auto; apply Ht. }
+    2:{ unfold coh0. cbn. repeat split; auto; apply Ht. }
     pose proof (length_aremove_some _ _ _ _ Eb) as Hl.
     destruct (bal_of (d_bal d) a <? spend)%N.
     + destruct (close_budget (m_bal m) a mx) as [mb| |] eqn:Ec.
-      * destruct (close_budget_inv _ _ _ _ Ec Hf) as [C1 C2]. unfold coh. cbn. repeat split; auto; try apply Ht. unfold open_count in *. lia.
-      * unfold coh. cbn. repeat split; auto; apply Ht.
-      * unfold coh. cbn. repeat split; auto; apply Ht.
+      * destruct (close_budget_inv _ _ _ _ Ec Hf) as [C1 C2]. unfold coh0. cbn. repeat split; auto; try apply Ht. unfold open_count in *. lia.
+      * unfold coh0. cbn. repeat split; auto; apply Ht.
+      * unfold coh0. cbn. repeat split; auto; apply Ht.
     + destruct (close_budget (m_bal m) a (mx - spend)%N) as [mb| |] eqn:Ec.
-      * destruct (close_budget_inv _ _ _ _ Ec Hf) as [C1 C2]. unfold coh. cbn. repeat split; auto; try apply Ht. unfold open_count in *. lia.
-      * unfold coh. cbn. repeat split; auto; apply Ht.
-      * unfold coh. cbn. repeat split; auto; apply Ht.
+      * destruct (close_budget_inv _ _ _ _ Ec Hf) as [C1 C2]. unfold coh0. cbn. repeat split; auto; try apply Ht. unfold open_count in *. lia.
+      * unfold coh0. cbn. repeat split; auto; apply Ht.
+      * unfold coh0. cbn. repeat split; auto; apply Ht.
   - (* RollbackBudget *)
     destruct (alookup b bs) as [[a mx]|] eqn:Eb.
-    2:{ unfold coh. cbn. repeat split; auto; apply Ht. }
+    2:{ unfold coh0. cbn. repeat split; auto; apply Ht. }
     pose proof (length_aremove_some _ _ _ _ Eb) as Hl.
     destruct (close_budget (m_bal m) a mx) as [mb| |] eqn:Ec.
-    + destruct (close_budget_inv _ _ _ _ Ec Hf) as [C1 C2]. unfold coh. cbn. repeat split; auto; try apply Ht. unfold open_count in *. lia.
-    + unfold coh. cbn. repeat split; auto; apply Ht.
-    + unfold coh. cbn. repeat split; auto; apply Ht.
-  - (* AddVol *) unfold coh. cbn. repeat split; auto; try apply Ht. rewrite map_app. cbn. congruence.
+    + destruct (close_budget_inv _ _ _ _ Ec Hf) as [C1 C2]. unfold coh0. cbn. repeat split; auto; try apply Ht. unfold open_count in *. lia.
+    + unfold coh0. cbn. repeat split; auto; apply Ht.
+    + unfold coh0. cbn. repeat split; auto; apply Ht.
+  - (* AddVol *)
+    destruct (alookup id (d_vols d)) as [x|] eqn:E.
+    + unfold coh0. cbn. repeat split; auto; apply Ht.
+    + unfold coh0. cbn. repeat split; auto; try apply Ht. rewrite map_app. cbn. congruence.
   - (* SetRO *)
     destruct (alookup id (d_vols d)) as [[[r0 t0] a0]|] eqn:E.
-    2:{ unfold coh. cbn. repeat split; auto; apply Ht. }
-    destruct (existsb (N.eqb id) (m_vols m)); unfold coh; cbn; repeat split; auto; try apply Ht.
-    rewrite aset_keys_in; [exact Hv | eapply alookup_some_key; eauto].
-  - (* Observe *) unfold coh. cbn. repeat split; auto; apply Ht.
-  - (* Restart *) apply (coh_restart {| db := d; mem := m; budgets := bs |}); assumption.
-  - (* Failed *) unfold coh. cbn. repeat split; auto; apply Ht.
+    2:{ unfold coh0. cbn. repeat split; auto; apply Ht. }
+    destruct (vol_ready m id); unfold coh0; cbn; repeat split; auto; try apply Ht.
+    rewrite (vols_mem_aset _ _ _ _ _ _ _ E). exact Hv.
+  - (* GrowVol *)
+    destruct (alookup id (d_vols d)) as [[[r0 t0] a0]|] eqn:E.
+    2:{ unfold coh0. cbn. repeat split; auto; apply Ht. }
+    destruct (vol_ready m id); unfold coh0; cbn; repeat split; auto; try apply Ht.
+    rewrite (vols_mem_aset _ _ _ _ _ _ _ E). exact Hv.
+  - (* HideVolFile *) unfold coh0. cbn. repeat split; auto; apply Ht.
+  - (* RestoreVolFile *) unfold coh0. cbn. repeat split; auto; apply Ht.
+  - (* Observe *) unfold coh0. cbn. repeat split; auto; apply Ht.
+  - (* Restart *) apply (coh_restart {| db := d; mem := m; budgets := bs; gone := g |}); assumption.
+  - (* Failed *) unfold coh0. cbn. repeat split; auto; apply Ht.
+Qed.
+
+(* the files that open are those that opened at the last start: kept by every step that
+   leaves the files of stored volumes alone, re-established by a start *)
+Lemma step_files : forall s o,
+  files_as_loaded s -> benign s o = true -> files_as_loaded (fst (step s o)).
+Proof.
+  intros [d m bs g] o Hf Hb. unfold files_as_loaded in *. cbn [db gone] in Hf.
+  unfold benign in Hb. apply Bool.andb_true_iff in Hb. destruct Hb as [_ Hb].
+  destruct o; cbn [step db mem budgets gone fst]; try exact Hf;
+    repeat match goal with
+    | |- context [match ?x with _ => _ end] => destruct x eqn:?
+    | |- context [if ?x then _ else _] => destruct x eqn:?
+    end; cbn [mk fst db gone set_db_cs set_db_roots set_db_hooks set_db_settings set_db_bal set_db_vols set_db_tip d_vols]; try exact Hf; try exact Hb.
+  - (* AddVol *)
+    rewrite files_ok_app. apply Bool.andb_true_iff. split.
+    + rewrite <- Hf. apply files_ok_ext. intros v Hv. rewrite file_gone_unhide.
+      destruct (fst v =? id)%N eqn:E; [|apply Bool.andb_true_r].
+      apply N.eqb_eq in E. subst id. exfalso.
+      match goal with H : alookup _ _ = None |- _ => apply alookup_none in H; apply H end.
+      apply in_map. exact Hv.
+    + cbn. rewrite file_gone_unhide, N.eqb_refl, Bool.andb_false_r. reflexivity.
+  - (* SetRO *) eapply files_ok_aset; eauto.
+  - (* GrowVol *) eapply files_ok_aset; eauto.
+  - (* Restart *) apply files_ok_mark.
+Qed.
+
+Lemma benign_benign0 : forall s o, benign s o = true -> benign0 s o = true.
+Proof. intros s o H. unfold benign in H. apply Bool.andb_true_iff in H. apply H. Qed.
+
+Lemma step_coh : forall s o, coh s -> benign s o = true -> coh (fst (step s o)).
+Proof.
+  intros s o [H0 Hf] Hb. split; [apply step_coh0; [exact H0 | apply benign_benign0; exact Hb] | apply step_files; assumption].
+Qed.
+
+Lemma runs_coh0 : forall l s, coh0 s -> benign0_run s l = true -> coh0 (runs s l).
+Proof.
+  unfold runs. induction l as [|o t IH]; intros s H Hb; cbn; [exact H|].
+  cbn in Hb. apply Bool.andb_true_iff in Hb. destruct Hb as [H1 H2].
+  apply IH; [apply step_coh0; assumption | exact H2].
 Qed.
 
 Lemma runs_coh : forall l s, coh s -> benign_run s l = true -> coh (runs s l).
@@ -528,15 +708,21 @@ Lemma restart_transparent : forall s,
   coh s -> budgets s = [] ->
   observe (restart s) = observe s /\ forall e, deliver (mem (restart s)) e = deliver (mem s) e.
 Proof.
-  intros [d m bs] (Hr & Nd & Nm & Hh & Nh & Ht & Hs & (Hc & Hf) & Hv & Htip) Hq.
-  cbn [db mem budgets] in *. subst bs.
+  intros s [H0 Hfl] Hq. pose proof (restart_db s Hfl) as Hdb.
+  destruct s as [d m bs g]. destruct H0 as (Hr & Nd & Nm & Hh & Nh & Ht & Hs & (Hc & Hf) & Hv & Htip).
+  cbn [db mem budgets gone] in *. subst bs.
   assert (m_bal m = []) as Hb by (apply no_budget_no_entry; [exact Hc | exact Hf]).
+  assert (mem (restart {| db := d; mem := m; budgets := []; gone := g |}) = load d) as Hm.
+  { unfold restart in *. cbn [db mem] in *. rewrite Hdb. reflexivity. }
   split.
-  - unfold observe, restart, load, mem_balance. cbn. rewrite Hb, Hh, Hs, Htip. f_equal.
+  - unfold observe, volumes. rewrite Hm, Hdb. unfold load, mem_balance, vol_ready. cbn. rewrite Hb, Hh, Hs, Htip, Hv. f_equal.
     apply map_ext. intros c. f_equal. symmetry. apply Hr.
-  - intros e. unfold deliver, restart, load. cbn. rewrite Hh.
+  - intros e. rewrite Hm. unfold deliver, load. cbn. rewrite Hh.
     apply deliver_perm. eapply tree_inv_perm; [apply build_tree_inv; exact Nh | rewrite <- Hh; exact Ht].
 Qed.
+
+Lemma coh_init : coh init.
+Proof. change init with (restart init). apply coh_restart; cbn; constructor. Qed.
 
 Lemma restart_after_history : forall l,
   benign_run init l = true -> budgets (runs init l) = [] ->
@@ -544,6 +730,17 @@ Lemma restart_after_history : forall l,
   forall e, deliver (mem (restart (runs init l))) e = deliver (mem (runs init l)) e.
 Proof.
   intros l Hb Hq. apply restart_transparent; [apply runs_coh; [apply coh_init | exact Hb] | exact Hq].
+Qed.
+
+(* volume files may come and go during the history: what matters is that, at the stop, the
+   files that open are those that opened at the last start *)
+Lemma restart_after_history_files : forall l,
+  benign0_run init l = true -> budgets (runs init l) = [] -> files_as_loaded (runs init l) ->
+  observe (restart (runs init l)) = observe (runs init l) /\
+  forall e, deliver (mem (restart (runs init l))) e = deliver (mem (runs init l)) e.
+Proof.
+  intros l Hb Hq Hf. apply restart_transparent; [|exact Hq].
+  split; [apply runs_coh0; [apply coh_init | exact Hb] | exact Hf].
 Qed.
 
 (** * The two known findings, as witnesses *)
